@@ -7,7 +7,7 @@ import (
 )
 
 // vDirectiveBoundaries: line-start positions at which a directive keyword line begins (plus len(doc)).
-func vDirectiveBoundaries(doc string) []int {
+func vDirectiveBoundariesScan(doc string) []int {
 	var out []int
 	for _, l := range vScanDoc(doc) {
 		if l.t != scanner.Keyword {
